@@ -591,6 +591,20 @@ func auxDocPath(r *rand.Rand, n int, emit func(E), stats map[string]int) {
 	paths := []string{"a", "a.b", "a.b.c", "b", "a.c", "", "a..b", "x.y", "b.a", ".", "a.", ".a"}
 	for i := 0; i < n; i++ {
 		d := document.NewDocument()
+		init := AObj()
+		if i%3 == 1 {
+			// a document that already has top-level keys which *contain* dots (from a map or a struct
+			// tag): they are not paths, and Set / Get / Has on the same text address the nested field
+			mm := map[string]interface{}{}
+			for _, k := range []string{"a.b", "x.y", "a.", "b", "a.b.c"} {
+				if r.Intn(2) == 0 {
+					v := g.smallNum()
+					mm[k] = u.Gamma(v)
+					init = ObjSet(init, k, v)
+				}
+			}
+			d = document.NewDocumentOf(mm)
+		}
 		steps := make([]interface{}, 0)
 		m := 1 + r.Intn(6)
 		for s := 0; s < m; s++ {
@@ -612,7 +626,7 @@ func auxDocPath(r *rand.Rand, n int, emit func(E), stats map[string]int) {
 			}
 			steps = append(steps, E{"path": B(p), "g": ga, "probes": probes, "fields": fields})
 		}
-		emit(E{"kind": "docpath", "steps": steps})
+		emit(E{"kind": "docpath", "init": init, "steps": steps})
 		stats["docpath"]++
 	}
 }
